@@ -452,6 +452,24 @@ impl<'tcx> Cx<'tcx> {
                     }
                 }
             }
+            // &[u8; N] literals (format_args! templates are lowered to these)
+            if let ty::Ref(_, inner, _) = *ty.kind() {
+                if let ty::Array(e, len) = *inner.kind() {
+                    if e == tcx.types.u8 {
+                        if let (ConstValue::Scalar(rustc_middle::mir::interpret::Scalar::Ptr(ptr, _)), Some(n)) = (cv, len.try_to_target_usize(tcx)) {
+                            let (prov, off) = ptr.prov_and_relative_offset();
+                            if let rustc_middle::mir::interpret::GlobalAlloc::Memory(mem) = tcx.global_alloc(prov.alloc_id()) {
+                                let start = off.bytes() as usize;
+                                let end = start + n as usize;
+                                if end <= mem.inner().len() {
+                                    let bytes = mem.inner().inspect_with_uninit_and_ptr_outside_interpreter(start..end);
+                                    o.push(("byte_array", J::Arr(bytes.iter().map(|b| J::n(*b)).collect())));
+                                }
+                            }
+                        }
+                    }
+                }
+            }
             if let ConstValue::ZeroSized = cv {
                 o.push(("zst", J::Bool(true)));
             }
